@@ -37,9 +37,10 @@ func (f *flowGen) scope() int {
 	return 0
 }
 
+// newValue: a value the target has not said before, of a form that Pad lengthens (from a target that speaks the old
+// value encoding mostly a JSON string literal or BYTES payload in Update.value).
 func (f *flowGen) newValue(prefix string) gn.Val {
-	f.g.serial++
-	return gn.Val{Kind: "string", S: fmt.Sprintf("%s%d", prefix, f.g.serial)}
+	return f.g.distinct(prefix, true)
 }
 
 // burst: the early slow observers stop reading (their handler blocks on the tick), the target
@@ -65,7 +66,16 @@ func (f *flowGen) burst() {
 	for j := 0; j < n; j++ {
 		g.emit(Op{Kind: "update", Path: []gn.Elem{{Name: "bulk"}, {Name: "b", Keys: map[string]string{"id": fmt.Sprint(j % w)}}, {Name: "data"}}, Val: f.newValue("b"), Pad: pad})
 	}
+	// a hot leaf: one plain leaf of the device's state changes in every round (its last change is what a subscriber
+	// that was behind must end up with)
+	hot := ""
+	if ks := g.plainKeys(); len(ks) > 0 && rapid.IntRange(0, 3).Draw(t, "hot") > 0 {
+		hot = ks[rapid.IntRange(0, len(ks)-1).Draw(t, "hotwhich")]
+	}
 	for r := rapid.IntRange(2, 4).Draw(t, "rounds"); r > 0; r-- {
+		if hot != "" {
+			g.rewrite(hot, g.distinct("h", false))
+		}
 		for i, k := range g.containers() {
 			if i == 0 || rapid.IntRange(0, 3).Draw(t, "around") > 0 {
 				g.resendAtomic(k)
@@ -206,6 +216,10 @@ func genFlowScenario(t *rapid.T, p flowParams) *Scenario {
 	}
 	f.g = newTgen(t, tg.Name, peersOf(targetNames(1+len(others)), 0))
 	g := f.g
+	if p.profile == "slow" && g.legacy == 0 && rapid.IntRange(0, 3).Draw(t, "legacyslow") == 0 {
+		// the slow part is where legacy values meet coalescing: somewhat more of its devices speak the old encoding
+		g.legacy = rapid.SampledFrom([]int{60, 85, 100}).Draw(t, "legacyshare")
+	}
 	// observers subscribed before the target says anything
 	slowOdds := 1
 	if p.profile == "break" {
@@ -242,7 +256,7 @@ func genFlowScenario(t *rapid.T, p flowParams) *Scenario {
 		fills = []int{0, 300, p.maxFill / 2, p.maxFill, p.maxFill, p.maxFill}
 	}
 	if n := rapid.SampledFrom(fills).Draw(t, "fill"); n > 0 {
-		g.emit(Op{Kind: "fill", N: n})
+		g.emit(Op{Kind: "fill", N: n, Enc: g.fillEnc()})
 	}
 	if syncAt >= pre {
 		g.emit(Op{Kind: "sync"})
@@ -276,7 +290,7 @@ func genFlowScenario(t *rapid.T, p flowParams) *Scenario {
 			}
 		}
 	}
-	tg.Ops = g.ops
+	tg.Ops, tg.Legacy = g.ops, g.legacy
 	if f.rt || (p.profile == "break" && rapid.IntRange(0, 7).Draw(t, "rtanyway") == 0) {
 		tg.RecvTimeoutMs = rapid.SampledFrom([]int{500, 800}).Draw(t, "recvtimeout")
 	}
@@ -351,7 +365,7 @@ func genQuietScenario(t *rapid.T) *Scenario {
 		for x := rapid.IntRange(1, 5).Draw(t, "post"); x > 0; x-- {
 			g.step()
 		}
-		tg.Ops = g.ops
+		tg.Ops, tg.Legacy = g.ops, g.legacy
 		sc.Targets = append(sc.Targets, tg)
 	}
 	for i := range sc.Observers {
